@@ -65,7 +65,8 @@ def imp_rules(tree: Tree, rules: IRules, acc: Tree) -> Tree:
 # the comprehension in the real code (same text => same generated fold function) is the spec function `matched`
 M.lemma("comp_is_matched", vars=dict(config_tree=Tree, rule=IRule), hyps=[],
         goal="[line for line in config_tree.keys() if rule['regexp'].match(line)] == matched(config_tree, rule['regexp'])",
-        induct="config_tree", pattern="[line for line in config_tree.keys() if rule['regexp'].match(line)]", properties=["C17"])
+        induct="config_tree", pattern="[line for line in config_tree.keys() if rule['regexp'].match(line)]", properties=["C17"],
+        comp_types={"*": SeqStr})
 M.lemma("keys_in_weaken", vars=dict(ls=SeqStr, t=Tree, k=STR, v=Tree), hyps=["keys_in(ls, t)"],
         goal="keys_in(ls, dcons(k, v, t))", induct="ls", properties=["C17"])
 M.lemma("matched_in_keys", vars=dict(t=Tree, rx=Regex), hyps=[], goal="keys_in(matched(t, rx), t)", induct="t",
